@@ -120,10 +120,12 @@ func e1(st setting, depth int, idx0 int) {
 		"provider":  {"/olla/openai/v1/chat/completions", `{"model":"m1","messages":[{"role":"user","content":"hi"}]}`},
 		"anthropic": {"/olla/anthropic/v1/messages", `{"model":"m1","max_tokens":8,"messages":[{"role":"user","content":"hi"}]}`},
 		"health":    {"/internal/health", ``},
+		// a proxied path that merely ends like a health endpoint: ordinary traffic, ordinary limit
+		"proxy-health-suffix": {"/olla/proxy/health", `{"model":"m1","messages":[{"role":"user","content":"hi"}]}`},
 	}
 	step := time.Duration(float64(time.Minute) / float64(st.perIP))
 	alpha := []ev{{kind: "req", ip: "127.0.0.1", conn: "A", path: "proxy"}, {kind: "req", ip: "127.0.0.1", conn: "B", path: "proxy"}, {kind: "req", ip: "127.0.0.2", conn: "A", path: "proxy"},
-		{kind: "req", ip: "127.0.0.1", conn: "A", path: "provider"}, {kind: "req", ip: "127.0.0.1", conn: "A", path: "anthropic"}, {kind: "req", ip: "127.0.0.1", conn: "A", path: "health"},
+		{kind: "req", ip: "127.0.0.1", conn: "A", path: "provider"}, {kind: "req", ip: "127.0.0.1", conn: "A", path: "anthropic"}, {kind: "req", ip: "127.0.0.1", conn: "A", path: "health"}, {kind: "req", ip: "127.0.0.1", conn: "A", path: "proxy-health-suffix"},
 		{kind: "adv", d: 100 * time.Millisecond}, {kind: "adv", d: step}, {kind: "adv", d: time.Minute}}
 	rate := float64(st.perIP) / 60.0
 	idx := idx0
